@@ -267,6 +267,8 @@ def base_scenario(r, seed, algo, *, parts=None, dmax=3, n=None, T=None, real_pro
         part = gen_partition(r, PARTS_BINARY_CHILD + [{"cls": "KaryPartition", "K": 3}, {"cls": "RandomKaryPartition", "K": 3}])
     params, n, meta = gen_algo_params(r, algo, part, d, n, ok_only=ok_only, cap_mode=cap_mode)
     sc = {"algo": algo, "params": params, "partition": part, "domain": dom}
+    if all(float(v).is_integer() for iv in dom for v in iv) and r.random() < 0.5:
+        sc["int_bounds"] = True       # bounds written as Python ints, as in the README
     if len(dom) > 1 and all(x == dom[0] for x in dom) and r.random() < 0.5:
         sc["aliased_rows"] = True     # the user wrote the hypercube as [[lo, hi]] * d
     if algo in ("POO", "GPO"):
